@@ -56,10 +56,21 @@ func (c *Ctx) ruleRatchets(cid string) {
 	}
 	sort.Strings(pkgs)
 	filter := func(f string) bool { return in[f] }
+	if c.P.Ctx.GOOS != "" {
+		// the baselines were recorded for the default build context; platform constants (syscall.AF_INET6,
+		// os.O_* …) and build-tagged files differ elsewhere, so the baseline comparisons are made there only
+		if crashRelevant[cid] {
+			c.ruleMakeSizeNonNeg("E5.make-size-nonneg", pkgs, filter, 3)
+		}
+		return
+	}
 	c.ruleCaseRatchet("E4.case-ratchet", pkgs, filter, "baselines/switches.json", 1)
 	c.ruleCallRatchet("E6.call-ratchet", pkgs, filter, "baselines/calls.json", 5)
 	c.ruleOrderRatchet("E6.order-ratchet", pkgs, filter, "baselines/calls.json", 5)
 	c.ruleConditionRatchet("E6.condition-ratchet", pkgs, filter, "baselines/conds.json", 5)
+	c.ruleAlwaysRatchet("E6.always-ratchet", pkgs, filter, "baselines/calls.json", 5)
+	c.ruleReadRatchet("E6.read-ratchet", pkgs, filter, "baselines/readguard.json", 5)
+	c.ruleGuardRatchet("E6.guard-ratchet", pkgs, filter, "baselines/readguard.json", 5)
 	// a panic in the daemon breaks whatever the property promises: the crash causes that have a cheap sound proof
 	if crashRelevant[cid] {
 		c.ruleMakeSizeNonNeg("E5.make-size-nonneg", pkgs, filter, 3)
